@@ -1,5 +1,5 @@
 """C19 — saving reports sink failures and ignores sink chunking."""
-import json, os, glob, random, concurrent.futures
+import json, os, glob, random, hashlib, subprocess, time, concurrent.futures
 import vlib
 from vlib import Check, tlc, run_bin, workdir, write_ndjson, log
 
@@ -23,7 +23,11 @@ META = {
             "faults of every kind landed inside them; after each failed save the document is saved again to a healthy sink, loaded and "
             "compared. TLC judges every logged run: sink answers are bound from the log, the writer position is inferred with the "
             "write_all loop model, the declarative layer gives the verdict.",
-    "note": "Trusted: TLC, the instrumented sink and the byte comparisons (prefix, equality, projection of loaded documents) done "
+    "note": "A later save is compared STRICTLY with the save of a fresh clone (whole loaded document, nothing left out); two saves "
+            "of one document object go to two sinks with different chunkings; documents with highest object number 2^32-2 "
+            "(cross-reference stream format) are saved in supervised workers with overflow checks on and, in the thorough tier, off. "
+            "Not covered: the numeric limit in cross-reference table format (the writer loops over all 2^32 numbers, minutes per "
+            "save). Trusted: TLC, the instrumented sink and the byte comparisons (prefix, equality, projection of loaded documents) done "
             "in the harness, std's write_all. Failure positions and kinds are exhaustive per generated document; documents, random "
             "chunkings and combinations of failure x chunking x Interrupted are sampled from the seed. Validity of the later file "
             "is judged by lopdf's own loader plus a check that every cross-reference entry points at its object header, not by an "
@@ -48,14 +52,18 @@ DECLARATIVE = ["TypeOK", "Accounting", "Prefix", "ChunkFree", "ErrSurfaces", "No
 # the ones that survive it (the counter still equals what the sink holds, so offsets stay consistent)
 DEV_REFUTED = [("inv", "Accounting"), ("prop", "Accounted"), ("inv", "ChunkFree"), ("inv", "Prefix"), ("inv", "ErrSurfaces"),
                ("prop", "Retry"), ("inv", "NoSpurious")]
-DEV_SURVIVES = ["CounterInv", "Later"]
+DEV_SURVIVES = ["CounterInv"]
+# deviation "max_id and trailer mutated before the sink is known to be healthy" (DevMutatesDoc): what lopdf's
+# write_cross_reference_stream does today; TLC must refute these, everything about a single save survives
+DEVDOC_REFUTED = [("prop", "DocUnchanged"), ("inv", "Later")]
+DEVDOC_SURVIVES = ["Accounting", "Prefix", "ChunkFree", "ErrSurfaces", "NoSpurious", "CounterInv"]
 
 
-def mc_cfg(path, variant, invs, props, calls=3, maxbuf=2, intr=1, dev=False):
+def mc_cfg(path, variant, invs, props, calls=3, maxbuf=2, intr=1, dev=False, devdoc=False):
     with open(path, "w") as f:
         f.write("SPECIFICATION Spec\nCONSTANTS\n  Variant = \"%s\"\n  MaxIntr = %d\n  KeepHist = FALSE\n  MaxCalls = %d\n"
-                "  MinBuf = 0\n  MaxBuf = %d\n  RawChoices = {FALSE, TRUE}\n  DevIgnoredWrite = %s\n  Emit = FALSE\n" % (
-                    variant, intr, calls, maxbuf, "TRUE" if dev else "FALSE"))
+                "  MinBuf = 0\n  MaxBuf = %d\n  RawChoices = {FALSE, TRUE}\n  DevIgnoredWrite = %s\n  DevMutatesDoc = %s\n"
+                "  Emit = FALSE\n" % (variant, intr, calls, maxbuf, "TRUE" if dev else "FALSE", "TRUE" if devdoc else "FALSE"))
         if invs:
             f.write("INVARIANTS " + " ".join(invs) + "\n")
         if props:
@@ -82,6 +90,11 @@ def signature(verdict, ref, rec):
     """narrow class of a failing run: clause, xref format, save mode, failure kind and region of the output"""
     plan = rec.get("plan", {})
     sig = "C19:%s.%s.%s" % (verdict, ref.get("fmt", "?"), ref.get("mode", "?"))
+    if verdict == "later-bookkeeping-differs":
+        # the class of the failing case is where the failure fell relative to the start of the cross-reference
+        # section (the document is changed on entering it), whatever the kind of failure
+        k = plan.get("k", -1)
+        return sig + (".at-or-after-xref-start" if k >= ref["marks"][2] else ".before-xref-start")
     if plan.get("kind", "none") != "none":
         sig += ".%s.%s" % (plan["kind"], region(ref["marks"], plan["k"], ref.get("esc", ())))
     elif plan:
@@ -124,7 +137,8 @@ def model(chk, tier, w):
     # the stated bound: writers of <= 5 calls with buffers <= 3 bytes x every sink schedule (quick: <= 4 calls)
     if quick:
         cfg = os.path.join(w, "bound.cfg")
-        mc_cfg(cfg, "asis", DECLARATIVE + ["CounterInv"], ["Accounted", "Retry", "RetrySink"], calls=4, maxbuf=3, intr=2)
+        mc_cfg(cfg, "asis", DECLARATIVE + ["CounterInv"], ["DocUnchanged", "Accounted", "Retry", "RetrySink"], calls=4, maxbuf=3,
+               intr=2)
     else:
         cfg = "MC_SaveSink_full.cfg"
     r2 = tlc("MC_SaveSink.tla", cfg, workers=workers, coverage=True, name="c19-bound", timeout=1500)
@@ -161,10 +175,23 @@ def model(chk, tier, w):
         mc_cfg(cfg, "asis", DEV_SURVIVES, [], dev=True)
         chk.add_tlc(tlc("MC_SaveSink.tla", cfg, workers=4, name="c19-dev-survives"))
     chk.extra["dev_ignored_write_refutes"] = refuted
+    refuted2 = {}
+    for kind, name in DEVDOC_REFUTED:
+        cfg = os.path.join(w, "devdoc_%s.cfg" % name)
+        mc_cfg(cfg, "asis", [name] if kind == "inv" else [], [name] if kind == "prop" else [], devdoc=True)
+        rd = tlc("MC_SaveSink.tla", cfg, workers=2, name="c19-devdoc-" + name, allow_violation=True)
+        if rd.violation != name:
+            raise vlib.ToolError("vacuous model: DevMutatesDoc does not refute %s (got %s)" % (name, rd.violation))
+        refuted2[name] = "%d states to the counter-example" % rd.distinct
+    if not quick:
+        cfg = os.path.join(w, "devdoc_survives.cfg")
+        mc_cfg(cfg, "asis", DEVDOC_SURVIVES, ["Accounted", "Retry"], devdoc=True)
+        chk.add_tlc(tlc("MC_SaveSink.tla", cfg, workers=4, name="c19-devdoc-survives"))
+    chk.extra["dev_mutates_doc_refutes"] = refuted2
     if not quick:
         # a different but correct counting discipline must satisfy the whole declarative layer
         cfg = os.path.join(w, "alt_count.cfg")
-        mc_cfg(cfg, "count_accepted", DECLARATIVE, ["Accounted", "Retry", "RetrySink"])
+        mc_cfg(cfg, "count_accepted", DECLARATIVE, ["DocUnchanged", "Accounted", "Retry", "RetrySink"])
         chk.add_tlc(tlc("MC_SaveSink.tla", cfg, workers=4, name="c19-alt"))
     chk.extra["model_states"] = chk.states
     chk.extra["model_transitions"] = chk.transitions
@@ -322,6 +349,11 @@ def absorb(chk, res, stats):
             elif ev == "devfull":
                 chk.evaluations += 1
                 stats["devfull"] += 1
+            elif ev == "twice":
+                chk.evaluations += 1
+                stats["twice"] += 1
+                if rec["c1"] != rec["c2"]:
+                    keys.add((rec["cfg"], "twice", rec["c1"], rec["c2"]))
             if v is None:
                 chk.traces += 1
                 continue
@@ -340,6 +372,8 @@ def absorb(chk, res, stats):
                 chk.violation("C19:%s.%s.%s" % (v, rec["fmt"], rec["mode"]), det)
             elif ev == "devfull":
                 chk.violation("C19:%s.save-path-full-device" % v, det)
+            elif ev == "twice":
+                chk.violation("C19:%s.%s.%s" % (v, ref["fmt"], ref["mode"]), det)
             else:
                 chk.violation(signature(v, ref or {}, rec), det)
     if n != len(verdicts) + sum(tallies[0].values()) or quiet != sum(tallies[0].values()):
@@ -365,7 +399,7 @@ def negative_control(chk, tr, w):
         raise vlib.ToolError("no reference record for the negative control")
     W = ref["W"]
     j = len(W) // 2
-    good_later = {"res": "ok", "load": "ok", "same": True, "valid": True}
+    good_later = {"res": "ok", "load": "ok", "same": True, "valid": True, "strict": True}
     fail = {"ev": "run", "cfg": ref["cfg"], "phase": "control", "skip": j, "suf": 0, "tail": [[W[j], -2]], "ncalls": j + 1,
             "plan": {"chunk": 0, "intr": 0, "k": sum(W[:j]), "kind": "err", "sticky": False},
             "result": "err", "dlen": sum(W[:j]), "dpre": True, "later": dict(good_later), "zcalls": 0, "flushes": 0}
@@ -373,18 +407,24 @@ def negative_control(chk, tr, w):
                "tail": [[W[0], -1]] + [[x, x] for x in W], "ncalls": len(W) + 1,
                "plan": {"chunk": 0, "intr": 1, "k": -1, "kind": "none", "sticky": False},
                "result": "ok", "dlen": ref["n"], "dpre": True,
-               "later": {"res": "none", "load": "none", "same": False, "valid": False}, "zcalls": 0, "flushes": 0}
+               "later": {"res": "none", "load": "none", "same": False, "valid": False, "strict": False}, "zcalls": 0,
+               "flushes": 0}
+    two = {"ev": "twice", "cfg": ref["cfg"], "c1": 0, "c2": 1, "res1": "ok", "res2": "ok", "eq1": True, "eq2": True, "eq12": True,
+           "len1": ref["n"], "len2": ref["n"], "load2": "ok", "same2": True, "valid2": True, "strict2": True}
 
     def mut(rec, f):
         x = json.loads(json.dumps(rec))
         f(x)
         return x
-    good_later = {"res": "ok", "load": "ok", "same": True, "valid": True}
     muts = [
         ("err-not-surfaced", mut(fail, lambda x: x.update(result="ok"))),
         ("not-prefix", mut(fail, lambda x: x.update(dpre=False))),
         ("later-content-differs", mut(fail, lambda x: x["later"].update(same=False))),
         ("later-save-err", mut(fail, lambda x: x["later"].update(res="err"))),
+        ("later-bookkeeping-differs", mut(fail, lambda x: x["later"].update(strict=False))),
+        ("second-save-bookkeeping-differs", mut(two, lambda x: x.update(strict2=False, eq2=False, eq12=False))),
+        ("second-save-content-differs", mut(two, lambda x: x.update(same2=False, strict2=False))),
+        ("ok-twice", two),
         ("interrupted-not-retried", mut(chunked, lambda x: x.update(result="err", later=good_later))),
         ("bytes-differ", mut(chunked, lambda x: x.update(dpre=False))),
         ("ok-failed", fail),
@@ -398,13 +438,81 @@ def negative_control(chk, tr, w):
     for j, (want, _) in enumerate(muts):
         v = got.get(j + 2, "(quiet ok)")
         if want.startswith("ok"):
-            if v != "(quiet ok)":
+            if v not in ("(quiet ok)", want):
                 raise vlib.ToolError("negative control: the uncorrupted record was judged %s" % v)
             continue
         if v != want:
             raise vlib.ToolError("negative control not rejected as %s: got %s" % (want, v))
         rejected += 1
     chk.extra["negative_controls_rejected"] = chk.extra.get("negative_controls_rejected", 0) + rejected
+
+
+# ------------------------------------------------------------------ numeric limit of the object number
+def build_wrapping():
+    """a second build of the c19 binary with integer overflow checks switched off (what `cargo build --release` of a
+    user's crate gives), in its own target directory; the standard harness build has them on (like debug / test)."""
+    cdir = vlib._crate_dir("harness")
+    tdir = os.path.join(vlib.WORK, "c19-wrapping-target-" + hashlib.sha1(vlib.REPO.encode()).hexdigest()[:10])
+    env = dict(os.environ, CARGO_NET_OFFLINE="true", CARGO_PROFILE_RELEASE_OVERFLOW_CHECKS="false", CARGO_TARGET_DIR=tdir)
+    t0 = time.time()
+    p = subprocess.run(["cargo", "build", "--release", "--offline", "--bin", "c19"], cwd=cdir, env=env,
+                       stdout=subprocess.PIPE, stderr=subprocess.STDOUT, text=True)
+    if p.returncode != 0:
+        raise vlib.ToolError("cargo build (overflow checks off) failed: " + p.stdout[-1500:])
+    log("[build] harness c19 without overflow checks %.1fs" % (time.time() - t0))
+    return os.path.join(tdir, "release", "c19")
+
+
+def limits(chk, tier, w):
+    """documents whose highest object number is 2^32 - 2, cross-reference stream format, plain and incremental, healthy /
+    chunking / failing sinks, each case in a supervised worker process; judged by Trace_SaveSink (LimitVerdict)."""
+    bins = [("checked", os.path.join(vlib.build_harness("c19"), "c19"))]
+    if tier != "quick":
+        bins.append(("wrapping", build_wrapping()))
+    recs = []
+    for prof, exe in bins:
+        f = os.path.join(w, "limit-%s.ndjson" % prof)
+        try:
+            p = subprocess.run([exe, "limit", "--timeout", "30", "--out", f], stdout=subprocess.PIPE, stderr=subprocess.PIPE,
+                               text=True, timeout=1200)
+        except subprocess.TimeoutExpired:
+            raise vlib.ToolError("c19 limit (%s) timed out" % prof)
+        if p.returncode != 0:
+            raise vlib.ToolError("c19 limit (%s) exited %d: %s" % (prof, p.returncode, p.stderr[-500:]))
+        got = vlib.read_ndjson(f)
+        if not got or any("tool" in r for r in got) or any(r["profile"] != prof for r in got):
+            raise vlib.ToolError("c19 limit (%s): unusable records: %s" % (prof, [r for r in got if "tool" in r][:2] or got[:1]))
+        recs += got
+    # inputs: healthy, chunking and failing sinks, plain and incremental
+    kinds = set((r["case"]["mode"], r["case"]["sink"]) for r in recs)
+    if len(kinds) < 8:
+        raise vlib.ToolError("vacuous limit cases: %s" % sorted(kinds))
+    f = os.path.join(w, "limit.ndjson")
+    write_ndjson(f, recs)
+    r = tlc("Trace_SaveSink.tla", "Trace_SaveSink.cfg", workers=1, env={"TRACE": f}, deque=True, name="c19-limit")
+    chk.add_tlc(r)
+    verdicts = {v["i"]: v["v"] for v in r.tagged("VERDICT")}
+    if len(verdicts) != len(recs):
+        raise vlib.ToolError("limit cases judged: %d of %d" % (len(verdicts), len(recs)))
+    tally = {}
+    for n, rec in enumerate(recs, 1):
+        v = verdicts[n]
+        chk.evaluations += 1
+        tally[v] = tally.get(v, 0) + 1
+        if v.startswith("tool:"):
+            raise vlib.ToolError("trace validator on limit cases: %s: %s" % (v, rec))
+        if v.startswith("ok"):
+            chk.traces += 1
+        elif v == "timeout":
+            chk.extra["limit_cases_not_judged_timeout"] = chk.extra.get("limit_cases_not_judged_timeout", 0) + 1
+        else:
+            chk.violation("C19:limit.%s.%s.%s.%s" % (v, rec["fmt"], rec["mode"], rec["profile"]),
+                          {"verdict": v, "case": rec, "highest_object_number": rec.get("maxid"),
+                           "reproduce": "c19 limit --out F  (profile %s)" % rec["profile"]})
+    chk.extra["numeric_limit_cases"] = len(recs)
+    chk.extra["numeric_limit_verdicts"] = tally
+    chk.sample({"numeric_limit_case": recs[0], "tlc_verdict": verdicts[1]})
+    return len(recs)
 
 
 def run(tier):
@@ -426,17 +534,18 @@ def run(tier):
     vlib.build_harness("c19")
     cases = model(chk, tier, w)
     replay(chk, cases, w)
+    nlimit = limits(chk, tier, w)
     # (V) shards: (first document, number of documents, stream size scale, random combinations per configuration)
     # (tag, first document, documents, stream size scale, random combinations per configuration, longest escaped string)
     if tier == "quick":
         shards = [("q%d" % i, i, 1, 40, 24, 120) for i in range(4)]
         par = 4
     else:
-        shards = [("s%03d" % i, i * 3, 3, 40, 48, 300) for i in range(64)] + \
-                 [("L%02d" % i, 400 + i * 2, 2, 400, 48, 300) for i in range(12)]
+        shards = [("s%03d" % i, i * 3, 3, 40, 48, 300) for i in range(44)] + \
+                 [("L%02d" % i, 400 + i * 2, 2, 400, 48, 300) for i in range(8)]
         par = 10
     stats = {"configs": 0, "bytes": 0, "skipped": 0, "skip_why": [], "offset_runs": 0, "results": {}, "fm": {}, "devfull": 0,
-             "later_not_identical": 0, "tally": {}, "distinct": 0, "plans": {}, "esc_strings": 0, "esc_bytes": 0, "in_esc": {}}
+             "later_not_identical": 0, "tally": {}, "distinct": 0, "plans": {}, "esc_strings": 0, "esc_bytes": 0, "in_esc": {}, "twice": 0}
     first_trace = None
     with concurrent.futures.ThreadPoolExecutor(max_workers=par) as ex:
         futs = [ex.submit(shard, t, f, d, s, c, m, w) for (t, f, d, s, c, m) in shards]
@@ -477,7 +586,8 @@ def run(tier):
     if not (pl.get("fail", 0) and pl.get("chunk", 0) and pl.get("intr", 0) and pl.get("short", 0)):
         raise vlib.ToolError("vacuous trace set: sink plans exercised: %s" % pl)
     chk.extra.update({
-        "distinct_nontrivial": stats["distinct"] + chk.extra.get("replayed_schedules", 0),
+        "distinct_nontrivial": stats["distinct"] + chk.extra.get("replayed_schedules", 0) + nlimit,
+        "two_saves_of_one_document": stats["twice"],
         "configurations": stats["configs"], "configurations_by_kind": stats["fm"], "configurations_skipped": stats["skipped"],
         "output_bytes_enumerated": stats["bytes"], "per_offset_fault_runs": stats["offset_runs"],
         "escaped_literal_strings": stats["esc_strings"], "escaped_literal_string_bytes": stats["esc_bytes"],
